@@ -127,7 +127,9 @@ theorem overwrite_keeps_length (h : H) (s : Store) (inv : RwInv h s) (ty : Ty) (
   exact ⟨by rw [f]; omega, by rw [a, e2], by rw [a, e1, wl]⟩
 
 /-- `write_at_end_extends`: writing at or past the end makes the frame count `wpos + k`; the file is then the old
-    frames, the hole a seek past the end left — `wpos − frames` frames of ZERO BYTES (`zeroFrame`) — and the new frames -/
+    frames, the hole a seek past the end left — `wpos − frames` frames of ZERO BYTES (`zeroFrame`) — and the new frames.
+    (Real library, harness scripts on the memory and the descriptor route, RAW unsigned 8-bit / WAV µ-law / AU 16-bit
+    stereo: the hole reads back as zero bytes — 0x8000, 0x8284, 0 as shorts — and the re-opened file has `wpos + k` frames.) -/
 theorem write_at_end_extends (h : H) (s : Store) (inv : RwInv h s) (ty : Ty) (fc : Bool) (data : List Int)
     (hmod : data.length % h.ch = 0) (hpos : 0 < data.length) (hge : h.frames ≤ h.wpos) :
     let r := stepAny h s ((ROp.write ty fc data).toOp h)
@@ -171,6 +173,14 @@ theorem plain_whence_moves_both (h : H) (s : Store) (inv : RwInv h s) (w : Whenc
   intro r
   obtain ⟨a1, _, _, a4, a5⟩ := seek_effect h s inv w .both off
   exact ⟨(rdwr_step h s (.seek w .both off) inv trivial).1.1, fun hc => ⟨(a5 hc).2.1, (a5 hc).2.2, (a5 hc).1⟩, a4, a1⟩
+
+/-- the 12 whence values: besides the 9 of the alphabet, SEEK_SET|SFM_RDWR is a plain SEEK_SET, and SEEK_CUR|SFM_RDWR,
+    SEEK_END|SFM_RDWR are refused (−1, error set, nothing else changes) -/
+theorem whence_sfm_rdwr (h : H) (s : Store) (inv : RwInv h s) (off : Int) :
+    stepSeek h s off 0x30 = stepSeek h s off (whenceCode .set .both) ∧
+    stepSeek h s off 0x31 = ({ h with error := E_BAD_SEEK }, s, { ret := -1, err := E_BAD_SEEK }) ∧
+    stepSeek h s off 0x32 = ({ h with error := E_BAD_SEEK }, s, { ret := -1, err := E_BAD_SEEK }) :=
+  seek_sfm_rdwr h s inv.gives.1 off
 
 /-- `truncate_shortens`: SFC_FILE_TRUNCATE (on a route with `ftruncate`) returns 0, makes the frame count `n`, puts
     both pointers at `n`, and keeps every frame below `n` (a count past the end extends with zero-byte frames) -/
@@ -403,5 +413,38 @@ def oddWav : List Byte :=
     so it is not "tight" — the invariant (not the library) excludes it: the byte behind the data is the zero pad -/
 theorem odd_wav_reopens_with_dataend :
     oddWav.length = 46 ∧ okDataend (openHandle 0 ⟨oddWav, 0⟩ .rw 0 0 0) = 45 := by decide +kernel
+
+/-- `reopen_rdwr_continues` without the `NoPad` side condition -/
+def reopen_rdwr_continues_full : Prop :=
+  ∀ (h : H) (s : Store) (fmt : Nat) (ch sr : Int), RwInv h s → CfgOf fmt ch sr h → sr ≤ 0x7FFFFFFF →
+    (h.container = .wav → h.frames * (h.bw : Int) < 0xFFFFFFFF) → ∀ ix pos : Nat,
+    ∃ h' s', openHandle ix ⟨(closeHandle h s).bytes, pos⟩ .rw fmt ch sr = .ok h' s' ∧ RwInv h' s'
+
+def oH : H := match openHandle 0 {} .rw 0x010005 1 8000 with | .ok h _ => h | _ => default
+def oS : Store := match openHandle 0 {} .rw 0x010005 1 8000 with | .ok _ s => s | _ => default
+theorem oH_opened : openHandle 0 {} .rw 0x010005 1 8000 = .ok oH oS := by rfl
+
+/-- witness: the one-frame 8-bit mono WAV above.  Not a defect of the library (the byte behind the data is the zero pad the
+    RIFF format asks for, and the second session works); what is missing is an invariant that admits a zero tail. -/
+theorem reopen_rdwr_continues_full_fails : ¬ reopen_rdwr_continues_full := by
+  intro hfull
+  have inv0 : RwInv oH oS := RwInv_open 0 {} 0x010005 1 8000 oH oS oH_opened (open_fresh_tight 0 {} 0x010005 1 8000 oH oS oH_opened rfl)
+  have cfg0 := open_rw_cfg 0 {} 0x010005 1 8000 oH oS oH_opened (Or.inl rfl)
+  have hok : ∀ op ∈ [ROp.write .s16 true [256]], op.ok oH := by decide
+  obtain ⟨inv1, sc⟩ := RwInv_runR [ROp.write .s16 true [256]] oH oS inv0 hok
+  obtain ⟨h', s', ho, inv'⟩ := hfull _ _ 0x010005 1 8000 inv1 (cfg0.congr sc) (by decide) (fun _ => by decide) 0 0
+  have hd : okDataend (openHandle 0 ⟨(closeHandle (runR oH oS [.write .s16 true [256]]).1 (runR oH oS [.write .s16 true [256]]).2).bytes, 0⟩ .rw 0x010005 1 8000) = 45 := by
+    decide +kernel
+  rw [ho] at hd
+  have := inv'.gives.2.2.2.2.2.2.2.2.1
+  simp only [okDataend] at hd
+  omega
+/-- what holds: `reopen_rdwr_continues` — RAW, AU, and WAV whose data section ends on an even offset -/
+theorem reopen_rdwr_continues_partial (h : H) (s : Store) (inv : RwInv h s) (fmt : Nat) (ch sr : Int)
+    (cfg : CfgOf fmt ch sr h) (hsr : sr ≤ 0x7FFFFFFF) (hguard : h.container = .wav → h.frames * (h.bw : Int) < 0xFFFFFFFF)
+    (hnp : NoPad h) (ix pos : Nat) :
+    ∃ h' s', openHandle ix ⟨(closeHandle h s).bytes, pos⟩ .rw fmt ch sr = .ok h' s' ∧ RwInv h' s' :=
+  let ⟨h', s', ho, i, _⟩ := reopen_rw_effect h s inv cfg hsr hguard hnp ix pos
+  ⟨h', s', ho, i⟩
 
 end Sf.C08Refine
